@@ -1186,6 +1186,34 @@ def g4c(rng):
     return case
 
 
+def g7lfa(rng, **opts):
+    """like g7lf, with operands of DIFFERENT shapes below the intersected rank (A[k, m], B[k, n], C[k, p]), so that the payloads the
+    intersection hands out are fibers of different ranks: which tensor leads is then visible in the result"""
+    shapes = {"A": ["K", "M"], "B": ["K", "N"], "C": ["K", "P"]}
+    n = rng.randint(2, 3)
+    decl = {t: list(r) for t, r in shapes.items()}
+    eins, bindings, loop, st = [], {}, {}, {}
+    ty = rng.choice(["leader-follower", "leader-follower", "two-finger"])
+    for i in range(n):
+        out = "T%d" % i if i < n - 1 else "Z"
+        fs = rng.sample(sorted(shapes), 2)
+        oranks = [shapes[t][1] for t in sorted(fs)]
+        decl[out] = list(oranks)
+        eins.append(dict(out=out, oidx=[V(r) for r in oranks], terms=[dict(kind="times", factors=[("t", t, [V(r) for r in shapes[t]]) for t in fs], sel=None)]))
+        lo = ["K"] + rng.sample(oranks, 2)
+        loop[out] = lo
+        st[out] = {"space": [], "time": list(lo)}
+        b = {"rank": "K"}
+        if ty == "leader-follower":
+            b["leader"] = fs[0]
+        bindings[out] = [{"config": "accel", "prefix": "tmp/" + out}, {"component": "IS", "bindings": [b]}]
+    arch = {"accel": [{"name": "level0", "attributes": {"clock_frequency": 10 ** 9},
+                       "local": [{"name": "IS", "class": "Intersector", "attributes": {"type": ty}}]}]}
+    fmt = {"Z": {"default": {"rank-order": list(decl["Z"]), decl["Z"][0]: {"format": "C", "pbits": 32}, decl["Z"][1]: {"format": "C", "pbits": 64}}}}
+    return dict(decl=decl, eins=eins, mapping={"loop-order": loop, "spacetime": st}, architecture=arch, bindings=bindings, format=fmt,
+                ext={"K": rng.randint(1, 5), "M": rng.randint(1, 3), "N": rng.randint(1, 3), "P": rng.randint(1, 3)}, env={}, tags=["g7lfa", ty, "n%d" % n])
+
+
 def g7lf(rng, **opts):
     """metrics specifications: a cascade over the same inputs in which one intersector is bound to the same rank in every
     Einsum, with the leader (always the Einsum's first factor) differing from Einsum to Einsum"""
